@@ -356,6 +356,57 @@ VERIF_HARNESS(h_wstate_set) { state_set<wchar_t>(); }
 //@harness h_state_set tier=quick loop=40 throws=_ZTIN5fcppt5parse6detail9exceptionIcEE
 //@harness h_wstate_set tier=quick loop=40 throws=_ZTIN5fcppt5parse6detail9exceptionIwEE
 
+// forward-only sources: the stream buffer cannot seek (the default std::basic_streambuf::seekoff / seekpos).  Per the
+// standard tellg() then returns pos_type(-1) WITHOUT setting failbit, and seekg() sets failbit.  Documented behaviour of
+// detail::stream (stream_impl.hpp): get_position compares tellg() with pos_type{-1} and throws "tellg() failed.",
+// set_position throws "seekg() failed."; reading characters is unaffected and still tracks nothing wrong.
+// `noseek` is symbolic; natively the streambuf really refuses to seek.
+template <typename Ch>
+void noseek_case()
+{
+  c12::set_text_symbolic_ch<Ch>(2);
+  c12::basic_holder<Ch> h{};
+  bool const noseek = (verif_u8("noseek") & 1U) != 0;
+  msv<Ch>.noseek = noseek;
+  p::detail::stream<Ch> st{fcppt::make_ref(h.get())};
+  stream_ref<Ch> const ref{fcppt::reference_to_base<p::basic_stream<Ch>>(fcppt::make_ref(st))};
+  unsigned const reads = verif_u8("reads");
+  verif_assume(reads <= 3);
+  for (unsigned i = 0; i < reads; ++i)
+  {
+    fcppt::optional::object<Ch> const c{p::get_char(ref)};
+    verif_assert(c.has_value() == (i < 2), "characters are delivered in order whether or not the source can seek");
+    if (c.has_value())
+      verif_assert(c.get_unsafe() == msv<Ch>.text[i], "the right character");
+  }
+  unsigned const op = verif_u8("op") & 1U;
+  verif_out("noseek", noseek);
+  verif_out("op", op);
+  verif_reach("before");
+  if (op == 0)
+  {
+    p::position<Ch> const pos{p::get_position(ref)}; // throws detail::exception ("tellg() failed.") iff noseek
+    verif_assert(!noseek, "get_position on a source that cannot tell its position throws");
+    check_position<Ch>(pos, static_cast<long>(reads < 2 ? reads : 2));
+    verif_assert((h.state() & 5U) == 0, "a successful get_position leaves no fail/bad bit");
+  }
+  else
+  {
+    p::position<Ch> const where{
+        typename p::position<Ch>::pos_type{static_cast<std::streamoff>(0)},
+        typename p::position<Ch>::optional_location{p::location{p::line{1U}, p::column{1U}}}};
+    p::set_position(ref, where); // throws detail::exception ("seekg() failed.") iff noseek
+    verif_assert(!noseek, "set_position on a source that cannot seek throws");
+    auto const c{p::get_char(ref)};
+    verif_assert(c.has_value() && c.get_unsafe() == msv<Ch>.text[0], "after a rewind to 0 the first character is read again");
+  }
+  verif_reach("end");
+}
+VERIF_HARNESS(h_noseek) { noseek_case<char>(); }
+VERIF_HARNESS(h_wnoseek) { noseek_case<wchar_t>(); }
+//@harness h_noseek tier=quick loop=40 throws=_ZTIN5fcppt5parse6detail9exceptionIcEE
+//@harness h_wnoseek tier=quick loop=40 throws=_ZTIN5fcppt5parse6detail9exceptionIwEE
+
 namespace
 {
 // character-level parsers: the error carries the location immediately AFTER the offending character.
